@@ -358,7 +358,7 @@ def build_single_predictor(mods, scene, cfg):
                             "anchor_ind": None})
     p = predictors.SingleInstancePredictor(
         confmap_config=conf, confmap_model=stub, backbone_type="unet", skeletons=["skeleton"],
-        peak_threshold=0.2, integral_refinement=cfg.get("refinement"), integral_patch_size=5,
+        peak_threshold=cfg.get("peak_threshold", 0.2), integral_refinement=cfg.get("refinement"), integral_patch_size=5,
         batch_size=cfg["batch"], return_confmaps=False, device="cpu", preprocess_config=pre)
     p._initialize_inference_model()
     return p, stub
@@ -378,7 +378,7 @@ def build_topdown_predictor(mods, scene, cfg):
     p = predictors.TopDownPredictor(
         centroid_config=cc, confmap_config=ci, centroid_model=stub_c, confmap_model=stub_i,
         centroid_backbone_type="unet", centered_instance_backbone_type="unet", skeletons=["skeleton"],
-        peak_threshold=0.2, integral_refinement=cfg.get("refinement"), integral_patch_size=5,
+        peak_threshold=cfg.get("peak_threshold", 0.2), integral_refinement=cfg.get("refinement"), integral_patch_size=5,
         batch_size=cfg["batch"], max_instances=cfg.get("max_instances"), return_confmaps=False, device="cpu",
         preprocess_config=pre, anchor_ind=None)
     p._initialize_inference_model()
@@ -480,7 +480,7 @@ def build_topdown_gt_predictor(mods, scene, cfg):
     p = predictors.TopDownPredictor(
         centroid_config=None, confmap_config=ci, centroid_model=None, confmap_model=stub_i,
         centroid_backbone_type=None, centered_instance_backbone_type="unet", skeletons=["skeleton"],
-        peak_threshold=0.2, integral_refinement=cfg.get("refinement"), integral_patch_size=5,
+        peak_threshold=cfg.get("peak_threshold", 0.2), integral_refinement=cfg.get("refinement"), integral_patch_size=5,
         batch_size=cfg["batch"], max_instances=None, return_confmaps=False, device="cpu",
         preprocess_config=pre, anchor_ind=None)
     p._initialize_inference_model()
